@@ -160,6 +160,14 @@ def synthetic_states(kit, T, key, s0):
     put("chain", f0, [(4, 2), (4, 1), (6, 5), (7, 5)], (4, 3))
     put("chain", f0, [(4, 2), (4, 1), (6, 5), (7, 5)], (5, 5))
     put("chain", f0, [(3, 4), (2, 4), (5, 6), (5, 7)], (5, 5))
+    # chained boxes where the BLOCKING box stands on a target (combined-grid code TARGET_BOX, not BOX), all four directions,
+    # with the pushed box on / off a target, and a blocking box on a target at the border
+    for (agent, b1, b2) in [((6, 4), (5, 4), (4, 4)), ((4, 2), (4, 3), (4, 4)), ((2, 5), (3, 5), (4, 5)), ((5, 7), (5, 6), (5, 5)),
+                            ((3, 4), (4, 4), (5, 4)), ((4, 6), (4, 5), (4, 4)), ((6, 5), (5, 5), (4, 5)), ((5, 3), (5, 4), (5, 5))]:
+        put("chain-blocker-on-target", f0, [b1, b2, (8, 8), (1, 8)], agent)
+    fb = open_grid([(0, 4), (4, 0), (9, 5), (5, 9)])
+    for (agent, b1, b2) in [((2, 4), (1, 4), (0, 4)), ((4, 2), (4, 1), (4, 0)), ((7, 5), (8, 5), (9, 5)), ((5, 7), (5, 8), (5, 9))]:
+        put("chain-blocker-on-border-target", fb, [b1, b2, (3, 3), (6, 6)], agent)
     # box against a wall / wall next to the agent
     fw = f0.copy()
     fw[2, 4] = fw[4, 2] = fw[6, 4] = fw[4, 6] = 1
@@ -197,8 +205,16 @@ def synthetic_states(kit, T, key, s0):
             if len(near) >= nb:
                 boxes = [near[int(j)] for j in rng.permutation(len(near))[:nb]]
         rest = [p for p in free if p != agent]
-        for j in rng.permutation(len(rest))[:4]:
-            f[rest[int(j)]] = 2
+        if i % 2:   # targets under some of the boxes (a box on a target has its own code in the combined grid)
+            under = [b for b in boxes if rng.random() < 0.6][:4]
+            for b in under:
+                f[b] = 2
+            rest2 = [p for p in rest if p not in under]
+            for j in rng.permutation(len(rest2))[:4 - len(under)]:
+                f[rest2[int(j)]] = 2
+        else:
+            for j in rng.permutation(len(rest))[:4]:
+                f[rest[int(j)]] = 2
         put("random-%.2f" % dens, f, boxes, agent, int(rng.integers(0, max(T, 1) + 2)))
     # unphysical states: exercise the model's scatter / gather semantics only (never claimed by the rules)
     put("unphysical-loc-negative", f0, [(2, 2), (2, 7), (7, 2), (7, 7)], None, 0, loc=(-1, 3))
